@@ -4,10 +4,20 @@ use crate::runner::{self, Prop};
 use std::io::{BufRead, Write};
 
 pub mod c06;
+pub mod c10;
+pub mod c11;
+pub mod c12;
+pub mod c17;
+pub mod c18;
 
 pub fn by_id(id: &str) -> Option<Box<dyn Prop>> {
     match id {
         "C06" => Some(Box::new(c06::C06)),
+        "C10" => Some(Box::new(c10::C10)),
+        "C11" => Some(Box::new(c11::C11)),
+        "C12" => Some(Box::new(c12::C12)),
+        "C17" => Some(Box::new(c17::C17)),
+        "C18" => Some(Box::new(c18::C18)),
         _ => None,
     }
 }
